@@ -238,6 +238,69 @@ def contLines (pre : Prefix) (more : List (Seg × List Noise)) : List Text :=
 def StrSp.lines (pre : Prefix) (kw : Text) (x : StrSp) : List Text :=
   kwLine pre kw x.sep x.first :: (x.firstNoise.map Noise.render ++ contLines pre x.more)
 
+/-! ## comment lines -/
+
+inductive PrevKind where
+  | msgctxt | msgid | msgidPlural
+
+def PrevKind.kw : PrevKind → Text
+  | .msgctxt => "msgctxt".toList
+  | .msgid => "msgid".toList
+  | .msgidPlural => "msgid_plural".toList
+
+/-- a comment line of an entry (as `Codecs.open` hands it to polib: an atypical `#text` is already `# text`) -/
+inductive CommentSp where
+  /-- translator comment `# text` (`#` alone for an empty line) -/
+  | tcomment (text rpad : Text)
+  /-- extracted comment `#. text` -/
+  | extracted (ws : Char) (text rpad : Text)
+  /-- flags `#, a, b` -/
+  | flags (ws : Char) (ps : List FlagPiece) (rpad : Text)
+  /-- previous msgctxt / msgid / msgid_plural: `#| msgid "…"` and `#| "…"` continuation lines -/
+  | previous (kind : PrevKind) (psep : Text) (x : StrSp)
+  /-- a line that carries nothing -/
+  | noise (z : Noise)
+
+def CommentSp.lines : CommentSp → List Text
+  | .tcomment text rpad => ['#' :: ((if text = [] then [] else ' ' :: text) ++ rpad)]
+  | .extracted ws text rpad => ['#' :: '.' :: ws :: (text ++ rpad)]
+  | .flags ws ps rpad => ['#' :: ',' :: ws :: (flagBody ps ++ rpad)]
+  | .previous kind psep x => x.lines (.previous psep) kind.kw
+  | .noise z => [z.render]
+
+def endsNonSpace (t : Text) : Prop := ∀ c, t.getLast? = some c → I18n.Po.pyIsSpace c = false
+def blankChar (c : Char) : Prop := c = ' ' ∨ c = '\t'
+def allSpace (t : Text) : Prop := ∀ c ∈ t, I18n.Po.pyIsSpace c = true
+
+def CommentSp.Valid (E : Codec) : CommentSp → Prop
+  | .tcomment text rpad => endsNonSpace text ∧ allSpace rpad
+  | .extracted ws text rpad => blankChar ws ∧ text ≠ [] ∧ endsNonSpace text ∧ allSpace rpad
+  | .flags ws ps rpad =>
+    blankChar ws ∧ ps ≠ [] ∧ (∀ x ∈ ps, x.Valid I18n.Po.pyIsSpace) ∧ flagBody ps ≠ [] ∧ endsNonSpace (flagBody ps) ∧ allSpace rpad
+  | .previous _ psep x => psep ≠ [] ∧ Blank psep ∧ x.Valid E
+  | .noise z => z.Valid
+
+/-- `acc` and one more line of comment text (polib puts a line feed between them unless `acc` is empty) -/
+def joinComment (acc t : Text) : Text := (if acc = [] then acc else acc ++ ['\n']) ++ t
+
+/-- what the comment line adds to the entry -/
+def CommentSp.apply (c : I18n.Po.Entry) : CommentSp → I18n.Po.Entry
+  | .tcomment text _ => { c with tcomment := joinComment c.tcomment text }
+  | .extracted _ text _ => { c with comment := joinComment c.comment text }
+  | .flags _ ps _ => { c with flags := c.flags ++ ps.map FlagPiece.item }
+  | .previous .msgctxt _ x => { c with previousMsgctxt := some x.text }
+  | .previous .msgid _ x => { c with previousMsgid := some x.text }
+  | .previous .msgidPlural _ x => { c with previousMsgidPlural := some x.text }
+  | .noise _ => c
+
+def CommentSp.isTc : CommentSp → Bool
+  | .tcomment _ _ => true
+  | _ => false
+
+def CommentSp.isNoise : CommentSp → Bool
+  | .noise _ => true
+  | _ => false
+
 /-! ## entries and catalogs -/
 
 inductive BodySp where
@@ -292,5 +355,44 @@ def MsgSp.entry (m : MsgSp) (base : I18n.Po.Entry) : I18n.Po.Entry :=
     msgidPlural := match m.body with | .singular _ => none | .plural p _ => some p.text
     msgstr := match m.body with | .singular x => some x.text | .plural _ _ => none
     msgstrPlural := match m.body with | .singular _ => [] | .plural _ forms => formsDict 0 forms }
+
+/-- a line of the file's header comment (translator comments before anything else), as handed to polib -/
+structure HeaderLine where
+  text : Text
+  rpad : Text
+
+def HeaderLine.render (h : HeaderLine) : Text := '#' :: ((if h.text = [] then [] else ' ' :: h.text) ++ h.rpad)
+def HeaderLine.Valid (h : HeaderLine) : Prop := endsNonSpace h.text ∧ allSpace h.rpad
+
+/-- an entry: its comment lines, then its message lines -/
+structure EntrySp where
+  comments : List CommentSp
+  msg : MsgSp
+
+def EntrySp.lines (e : EntrySp) : List Text := e.comments.flatMap CommentSp.lines ++ e.msg.lines
+
+def EntrySp.Valid (E : Codec) (e : EntrySp) : Prop := (∀ c ∈ e.comments, c.Valid E) ∧ e.msg.Valid E
+
+/-- the catalog entry it spells -/
+def EntrySp.entry (e : EntrySp) : I18n.Po.Entry := e.msg.entry (e.comments.foldl CommentSp.apply {})
+
+/-- a whole file as polib sees it: noise, the header comment, noise, the entries.  The translator comments of the
+    first entry ARE the header comment (polib's `he` state), so the first entry has none of its own. -/
+structure CatalogSp where
+  noiseA : List Noise
+  header : List HeaderLine
+  noiseB : List Noise
+  entries : List EntrySp
+
+def CatalogSp.lines (c : CatalogSp) : List Text :=
+  c.noiseA.map Noise.render ++ (c.header.map HeaderLine.render ++ (c.noiseB.map Noise.render ++ c.entries.flatMap EntrySp.lines))
+
+def CatalogSp.Valid (E : Codec) (c : CatalogSp) : Prop :=
+  (∀ z ∈ c.noiseA, z.Valid) ∧ (∀ h ∈ c.header, h.Valid) ∧ (∀ z ∈ c.noiseB, z.Valid) ∧ (∀ e ∈ c.entries, e.Valid E) ∧
+  c.entries ≠ [] ∧ (∀ e, c.entries.head? = some e → ∀ cl ∈ e.comments, cl.isTc = false) ∧
+  (∀ e, c.entries.getLast? = some e → e.msg.EndsReal)
+
+/-- the file header comment it spells -/
+def CatalogSp.headerText (c : CatalogSp) : Text := (c.header.map HeaderLine.text).foldl joinComment []
 
 end I18n.Spec.PoSpelling
